@@ -41,8 +41,68 @@ def merge_rows(paths, out, limit=None, accepted_only=False):
     return n
 
 
+LEX_CFG = 'CONSTANTS MaxW = 2  MaxD = %d  MaxLen = %d\nSPECIFICATION Spec\nVIEW view\nINVARIANTS CompleteOK Emit\nCHECK_DEADLOCK FALSE\n'
+
+
+def gen_lex():
+    """one text per transition of the JSON automaton (JsonLex) in five host contexts"""
+    return vlib.cached_tlc("lex", "Gen_Lex", LEX_CFG % (2, 40), workers=1)
+
+
+def gen_lex_walks(seed):
+    """thorough tier: random walks through the automaton (texts of up to 60 atoms, containers nested up to 4 deep)"""
+    return vlib.cached_tlc("lex-walks-%d" % seed, "Gen_Lex", LEX_CFG % (4, 60), workers=4, timeout=40, simulate="num=1000000", depth=61, seed=seed)
+
+
+def run_lex(pid, v, tier, seed, out):
+    """byte level: texts generated from the state graph of the JSON automaton; acceptance facts belong to C07, round-trip facts to C06"""
+    ldata, lmeta = gen_lex()
+    lsum = json.loads(vlib.run_harness(["lex", ldata, out, seed, 3 if tier == "quick" else 12]))
+    lstates, lrows = lmeta["distinct"], lsum["rows"]
+    evs = [json.loads(l) for l in open(os.path.join(out, "lex.events.ndjson"))]
+    if tier == "thorough":
+        wdata, wmeta = gen_lex_walks(seed)
+        wsum = json.loads(vlib.run_harness(["lex", wdata, out, seed, 2]))
+        evs += [json.loads(l) for l in open(os.path.join(out, "lex.events.ndjson"))]
+        for k in ("evaluations", "mismatches", "l1_vs_encoding_json_drift", "rows"):
+            lsum[k] += wsum[k]
+        lsum["random_walk_rows"] = wsum["rows"]
+        lsum["drift_examples"] = (lsum["drift_examples"] or []) + (wsum["drift_examples"] or [])
+    if lsum["l1_vs_encoding_json_drift"]:
+        raise vlib.Inconclusive("JsonLex and encoding/json.Valid disagree on %d texts, e.g. %s" % (lsum["l1_vs_encoding_json_drift"], lsum["drift_examples"]))
+    n = 0
+    for e in evs:
+        if e["prop"] != pid:
+            continue
+        n += 1
+        v.violation({"property": pid, "event": e, "expected_L1": e["exp"],
+                     "what": "Parse(%s) [%s, automaton context %d]: %s; %s" % (e["text"], e["host"], e["ctx"], e["got"], e["why"])})
+    lsum["mismatches_this_property"] = n
+    return lsum, lstates, lrows
+
+
+LEX_RULE = ("JsonLex: pushdown automaton of RFC 8259 over 30 byte classes; TLC visits every automaton state reachable in five host "
+            "contexts (whole text, last / first member of the root object, coordinate, property / member of the geometry; containers "
+            "nested up to 2 above the context; witnesses told apart by 0, 1, >= 2 whitespace bytes inside the fragment's containers) and "
+            "emits witness.atom.completion for every state and every atom - one text per transition, legal or not - with the "
+            "automaton's verdict on host + fragment (TLC also checks that every completion is valid; strings are completed with a "
+            "space before the closing quote). Each text is spelled with several representative bytes per class (control bytes, "
+            "multi-byte and invalid UTF-8, every escape) and parsed under 2 option sets. C07: not valid JSON => error and no object; "
+            "valid => accepted in member contexts; a single number as coordinate => accepted with x bit-identical to "
+            "strconv.ParseFloat; a whole text without \"type\" => rejected. C06: the output of an accepted text is valid JSON, is "
+            "accepted again and carries every foreign member with its value (strings exactly, numbers by value). The automaton is "
+            "cross-checked against encoding/json.Valid on every text (any disagreement makes the run inconclusive).")
+
+
+def lex_cov(lsum, lstates, lrows):
+    return {"rule": LEX_RULE, "automaton_states": lstates, "texts_rows": lrows, "evaluations": lsum["evaluations"],
+            "mismatches_this_property": lsum["mismatches_this_property"], "by_context_validity_expectation": lsum["by_class"],
+            "random_walk_rows": lsum.get("random_walk_rows", 0)}
+
+
 def prepare():
     gen()
+    gen_lex()
 
 
 def split(data):
@@ -81,26 +141,29 @@ def run(tier, seed, t0):
             v.known_finding(k["id"], rec)
         else:
             v.violation(rec)
+    lsum, lstates, lrows = run_lex(PID, v, tier, seed, out)
     rc = v.finish()
     sample = json.loads(open(rows).readlines()[1000])
+    nbase = len({json.loads(l)[1] for l in open(rows) if l.startswith('["DOC"')})
     cov = {
         "states": meta["distinct"], "transitions": meta["generated"], "traces_validated_against_impl": 0,
-        "evaluations": summ["evaluations"], "distinct_nontrivial": meta["lines"] - len(devs),
-        "rule": "Gen_Doc: 26 well-formed base documents of the nine types (2-4D and mixed positions, holes, foreign/duplicate/reordered "
-                "members, nesting) and every single structural mutation of each (any sub-value replaced by one of 9 values of other "
+        "evaluations": summ["evaluations"] + lsum["evaluations"], "distinct_nontrivial": meta["lines"] - len(devs) + lrows,
+        "rule": "Gen_Doc: %d well-formed base documents of the nine types (2-4D and mixed positions, multi-hole 3D polygons, perfect and almost perfect rectangles, "
+                "foreign/duplicate/reordered/escaped/empty-key members, nesting) and every single structural mutation of each (any sub-value replaced by one of 9 values of other "
                 "JSON kinds, any member/element deleted, duplicated before/after, moved to the front): %d documents with the "
                 "three-valued L1 verdict, the decoded tree and the L2 prediction; T7a compares ParserImpl with GeoDoc on all of "
                 "them. Each document is rendered %d times (3 number tables incl. 17-digit, 1e21, 5e-324; exponent/decimal spellings; "
                 "whitespace; escaped keys; surrounding whitespace; trailing garbage; truncation; leading/trailing characters that are Unicode but not JSON whitespace) and parsed under 4 option sets; "
                 "accept/reject, error xor object, type/nesting/child order and every x,y (bit-for-bit) are compared. "
-                "distinct_nontrivial = distinct documents" % (meta["lines"] - len(devs), nrender),
+                "distinct_nontrivial = distinct documents" % (nbase, meta["lines"] - len(devs), nrender),
         "exhaustive": True,
         "samples": [{"generated_doc": {"ast": sample[3], "verdict": sample[4], "decode": sample[5], "L2": sample[6:8]}}],
         "by_expected_verdict": summ["by_expected"], "mismatches": summ["mismatches"], "code_vs_L2_transcription_drift": summ["l2_drift"],
         "model_level_deviations_L2_vs_L1": len(devs), "known_finding_hits": v.known_hits,
+        "byte_level": lex_cov(lsum, lstates, lrows),
     }
     vlib.write_evidence(PID, tier, seed, t0, cov, [vlib.TOOLS,
-                        "lexing (what is valid JSON) is delegated to gjson.Valid; byte-level texts only as trailing-garbage / truncation variants",
+                        "byte level: texts over 30 byte classes with containers nested <= 2 (thorough: random walks to 60 atoms, <= 4) above five host contexts; not arbitrary byte strings",
                         "documents in neither list of the property (5-number positions, null ordinates, null geometry, non-array nested elements) assert nothing",
                         "the Circle convention (properties.type = Circle) is excluded here (C13/C08)"],
                         len(v.violations))
